@@ -34,7 +34,7 @@ type c12Scenario struct {
 func c12Gen(c *Ctx) *c12Scenario {
 	g := c.G
 	sc := &c12Scenario{}
-	sc.Kind = []string{"join", "union", "join", "batchjoin"}[g.Intn(4)]
+	sc.Kind = []string{"join", "union", "join", "batchjoin", "joinon"}[g.Intn(5)]
 	np := g.Range(2, 3)
 	maxPts := 10
 	if c.Thorough() {
@@ -72,7 +72,11 @@ func c12Gen(c *Ctx) *c12Scenario {
 		win = "\n    |window().period(10s).every(10s).align()"
 	}
 	for p := 0; p < np; p++ {
-		fmt.Fprintf(&sb, "var %s = stream\n    |from().measurement('%s').groupBy('g')%s\n", names[p], names[p], win)
+		gb := "'g'"
+		if sc.Kind == "joinon" && p == 0 {
+			gb = "'g', 'h'" // the first parent is grouped more finely; the join is on the common dimension
+		}
+		fmt.Fprintf(&sb, "var %s = stream\n    |from().measurement('%s').groupBy(%s)%s\n", names[p], names[p], gb, win)
 	}
 	var others []string
 	for p := 1; p < np; p++ {
@@ -87,6 +91,9 @@ func c12Gen(c *Ctx) *c12Scenario {
 			as = append(as, "'"+names[p]+"'")
 		}
 		fmt.Fprintf(&sb, "%s\n    |join(%s)\n        .as(%s)", names[0], strings.Join(others, ", "), strings.Join(as, ", "))
+		if sc.Kind == "joinon" {
+			sb.WriteString("\n        .on('g')")
+		}
 		if sc.TolS > 0 {
 			fmt.Fprintf(&sb, "\n        .tolerance(%ds)", sc.TolS)
 		}
@@ -139,7 +146,7 @@ func c12Run(c *Ctx, sc *c12Scenario, k int) ([]string, []string, Verdict) {
 			go func(p int, pts []c12Point) {
 				defer wg.Done()
 				for _, pt := range pts {
-					line := fmt.Sprintf("%s,g=%s s=%di,v=%di %d\n", names[p], pt.G, pt.S, pt.S*10+p, int64(pt.T)*int64(time.Second))
+					line := fmt.Sprintf("%s,g=%s,h=h%d s=%di,v=%di %d\n", names[p], pt.G, pt.S%2, pt.S, pt.S*10+p, int64(pt.T)*int64(time.Second))
 					if code := d.WriteLine("db", "rp", line); code != 204 {
 						verdict = Fail("harness/setup", "write rejected: %d", code)
 					}
@@ -290,7 +297,7 @@ func runC12(c *Ctx) Verdict {
 		} else if strings.Join(first, "\n") != strings.Join(lines, "\n") {
 			v := Fail("schedule-dependent", "the same per-parent sequences produced different output multisets under two schedules (%s).\nschedule 0 (%s): %d outputs\n%s\nschedule %d (%s): %d outputs\n%s",
 				sc.Kind, sc.Configs[0], len(first), diffLines(first, lines), k, sc.Configs[k], len(lines), diffLines(lines, first))
-			v.Shape = map[string]interface{}{"kind": sc.Kind, "fill": sc.Fill}
+			v.Shape = map[string]interface{}{"kind": sc.Kind, "fill": sc.Fill, "coarse_parent_has_duplicates": c12CoarseDup(sc), "fine_parent_has_duplicates": c12FineDup(sc), "parents": len(sc.Parents)}
 			return v
 		}
 		switch sc.Kind {
@@ -346,6 +353,39 @@ func runC12(c *Ctx) Verdict {
 	return Pass()
 }
 
+// c12CoarseDup: for join().on(), does a coarsely grouped parent deliver two points for the same group and (rounded) time?
+func c12CoarseDup(sc *c12Scenario) bool {
+	if sc.Kind != "joinon" {
+		return false
+	}
+	for p := 1; p < len(sc.Parents); p++ {
+		seen := map[string]bool{}
+		for _, pt := range sc.Parents[p] {
+			k := fmt.Sprint(pt.G, "@", roundS(pt.T, sc.TolS))
+			if seen[k] {
+				return true
+			}
+			seen[k] = true
+		}
+	}
+	return false
+}
+
+func c12FineDup(sc *c12Scenario) bool {
+	if sc.Kind != "joinon" || len(sc.Parents) == 0 {
+		return false
+	}
+	seen := map[string]bool{}
+	for _, pt := range sc.Parents[0] {
+		k := fmt.Sprint(pt.G, pt.S%2, "@", roundS(pt.T, sc.TolS))
+		if seen[k] {
+			return true
+		}
+		seen[k] = true
+	}
+	return false
+}
+
 func diffLines(a, b []string) string {
 	cnt := map[string]int{}
 	for _, l := range b {
@@ -372,11 +412,11 @@ func init() {
 	Register(&Prop{
 		ID:  "C12",
 		Run: runC12,
-		Rule: "case = 2-3 parent branches (separate from() per measurement, grouped by tag g, optionally windowed for a batch join) into join(as, tolerance 0/1s/5s, inner or fill null/0) or union; one writer per parent with a seeded non-decreasing time sequence (duplicates, gaps, silent or empty parents); " +
+		Rule: "case = 2-3 parent branches (separate from() per measurement, grouped by tag g, optionally windowed for a batch join, or the first parent grouped more finely and joined .on('g')) into join(as, tolerance 0/1s/5s, inner or fill null/0) or union; one writer per parent with a seeded non-decreasing time sequence (duplicates, gaps, silent or empty parents); " +
 			"the same workload is executed under 3 (quick) / 6 (thorough) independently seeded schedules, some of which starve a parent or the join; the task is then drained by TaskMaster.Close; " +
 			"non-trivial = at least one point was written; distinct = distinct (scenario, interleaving signatures of all schedules) tuples",
 		Real:        []string{"JoinNode (joinGroup, joinset), UnionNode, CircularQueue", "edge.multiConsumer (one reader goroutine per parent)", "WindowNode (batch join)", "TaskMaster ingest/fork/Close, FromNode, LogNode", "services/httpd write endpoint"},
 		Stub:        []string{"libflux C stub (never called)", "no sockets"},
-		Assumptions: []string{"each parent's points are written in non-decreasing time order by one writer (the property's precondition)", "join().on() is not exercised", "batch joins are checked for schedule independence only (no pairing model)"},
+		Assumptions: []string{"each parent's points are written in non-decreasing time order by one writer (the property's precondition)", "batch joins and join().on() (first parent grouped by g,h, the others by g) are checked for schedule independence only (no pairing model)"},
 	})
 }
